@@ -237,6 +237,35 @@ class Source:
             q = mm.start()
         return dict(header=header, start=q, fn_kw=pos, body_open=o, body_close=c)
 
+    def find_trait_default(self, trait_name, fn_name):
+        """The provided (default) method `fn_name` of `trait trait_name { .. }` -- what Rust's method resolution uses for an
+        impl that does not define the method itself."""
+        for mt in re.finditer(r'\btrait\s+%s\b' % re.escape(trait_name), self.m):
+            o = self.m.index('{', mt.end())
+            c = match_close(self.m, o)
+            for mf in re.finditer(r'\bfn\s+%s\b' % re.escape(fn_name), self.m[o:c]):
+                pos = o + mf.start()
+                if depth_at(self.m, pos, o) != 1:
+                    continue
+                # a provided method has a body before the next ';' at this depth
+                j = pos
+                d = 0
+                while j < c:
+                    ch = self.m[j]
+                    if ch in '(<[':
+                        d += 1
+                    elif ch in ')>]':
+                        d -= 1
+                    elif ch == ';' and d <= 0:
+                        raise ScanError('trait %s: method %s has no default body' % (trait_name, fn_name))
+                    elif ch == '{':
+                        break
+                    j += 1
+                bo = j
+                bc = match_close(self.m, bo)
+                return dict(header='trait ' + trait_name, start=pos, fn_kw=pos, body_open=bo, body_close=bc)
+        raise ScanError('trait %s / default method %s not found in %s' % (trait_name, fn_name, self.path))
+
     def find_item(self, kind, name):
         """struct / enum / const / static / type item at any depth."""
         if kind in ('struct', 'enum'):
